@@ -292,6 +292,7 @@ def mutate_value(
         and expected_type
         and isinstance(value, dict)
         and not check_type({}, expected_type)
+        and not check_type(value, expected_type)  # (already a conforming value)
         and not (  # validated types are annotations only (never instantiated)
             isinstance(constructor, type) and issubclass(constructor, ValidatedType)
         )
